@@ -33,6 +33,24 @@ pub struct Recorder {
     pub record_store_calls: bool,
     pub deliveries: BTreeMap<String, u32>,
     pub pending_acks: Vec<(String, u32)>,
+    /// generated id -> model id of the nodes that are written without an id (`MWorkflow::anon`)
+    pub anon_ids: BTreeMap<String, String>,
+}
+
+/// replace the generated ids of anonymous nodes wherever they appear as a string value
+fn deanon(v: &Value, map: &BTreeMap<String, String>) -> Value {
+    if map.is_empty() {
+        return v.clone();
+    }
+    match v {
+        Value::String(s) => match map.get(s) {
+            Some(c) => Value::String(c.clone()),
+            None => v.clone(),
+        },
+        Value::Array(a) => Value::Array(a.iter().map(|x| deanon(x, map)).collect()),
+        Value::Object(m) => Value::Object(m.iter().map(|(k, x)| (k.clone(), deanon(x, map))).collect()),
+        _ => v.clone(),
+    }
 }
 
 pub type Rec = Arc<Mutex<Recorder>>;
@@ -44,8 +62,13 @@ fn current() -> Option<Rec> {
 }
 
 pub fn install_state_hook() {
-    acts::verif::set_state_hook(Some(Arc::new(|pid, tid, kind, nid, uses, old, new, pure_write| {
+    acts::verif::set_state_hook(Some(Arc::new(|pid, tid, kind, nid, name, uses, old, new, pure_write| {
         if let Some(r) = current() {
+            let raw = nid;
+            let nid = &crate::model::canon_nid(nid, name);
+            if nid != raw {
+                r.lock().unwrap().anon_ids.insert(raw.to_string(), nid.to_string());
+            }
             let seq = vsim::bump_seq();
             let epoch = vsim::cur_epoch();
             vsim::log(&format!("T {pid} {kind} {nid} {old}->{new}{}", if pure_write { " (pure)" } else { "" }));
@@ -180,7 +203,7 @@ fn img_from_live(p: &acts::verif::LiveProc) -> ProcImg {
             .iter()
             .map(|t| TaskImg {
                 tid: t.tid.clone(),
-                nid: t.nid.clone(),
+                nid: crate::model::canon_nid(&t.nid, &t.name),
                 kind: t.kind.clone(),
                 uses: t.uses.clone(),
                 key: t.key.clone(),
@@ -304,6 +327,14 @@ impl World {
                 let seq = vsim::bump_seq();
                 let gen = vsim::id_seq(&m.id);
                 let gen_activity = vsim::id_activity(&m.id);
+                let canon = crate::model::canon_nid(&m.nid, &m.name);
+                let anon_ids = {
+                    let mut g = rec.lock().unwrap();
+                    if canon != m.nid {
+                        g.anon_ids.insert(m.nid.clone(), canon.clone());
+                    }
+                    g.anon_ids.clone()
+                };
                 let r = MsgRec {
                     seq,
                     chan: label.clone(),
@@ -313,17 +344,17 @@ impl World {
                     gen_activity,
                     pid: m.pid.clone(),
                     tid: m.tid.clone(),
-                    nid: m.nid.clone(),
+                    nid: canon,
                     mid: m.mid.clone(),
-                    key: m.key.clone(),
+                    key: anon_ids.get(&m.key).cloned().unwrap_or_else(|| m.key.clone()),
                     typ: m.r#type.clone(),
                     uses: m.uses.clone(),
                     state: m.state.as_ref().to_string(),
                     tag: m.tag.clone(),
                     model_tag: m.model.tag.clone(),
                     name: m.name.clone(),
-                    inputs: m.inputs.clone().into(),
-                    outputs: m.outputs.clone().into(),
+                    inputs: deanon(&m.inputs.clone().into(), &anon_ids),
+                    outputs: deanon(&m.outputs.clone().into(), &anon_ids),
                     retry: m.retry_times,
                     start_time: m.start_time,
                     end_time: m.end_time,
@@ -534,7 +565,7 @@ impl World {
                 let act = content.get("Act");
                 img.tasks.push(TaskImg {
                     tid: t.tid.clone(),
-                    nid: nd.get("id").and_then(|v| v.as_str()).unwrap_or("").to_string(),
+                    nid: crate::model::canon_nid(nd.get("id").and_then(|v| v.as_str()).unwrap_or(""), &t.name),
                     kind: t.kind.clone(),
                     uses: act.and_then(|a| a.get("uses")).and_then(|v| v.as_str()).unwrap_or("").to_string(),
                     key: act.and_then(|a| a.get("key")).and_then(|v| v.as_str()).unwrap_or("").to_string(),
